@@ -64,6 +64,28 @@ struct token {
   bool stop_possible() const noexcept { return true; }
 };
 
+// ---- element type -------------------------------------------------------------------------------------
+// K2S_ELEM_MV: the streams carry a class whose move leaves the source recognisably empty, and every user callable
+// takes its arguments by value: an adaptor that hands an element on after moving from it (or twice) is seen at once
+inline void viol(const std::string& s);
+#ifdef K2S_ELEM_MV
+struct mv {
+  int v; bool moved = false;
+  mv(int x) noexcept : v(x) {}
+  mv(const mv& o) noexcept : v(o.get()) {}
+  mv(mv&& o) noexcept : v(o.get()) { o.v = -7777; o.moved = true; }
+  mv& operator=(const mv& o) noexcept { v = o.get(); moved = false; return *this; }
+  mv& operator=(mv&& o) noexcept { v = o.get(); moved = false; o.v = -7777; o.moved = true; return *this; }
+  int get() const noexcept { if (moved) viol("a moved-from element was read"); return v; }
+};
+using elem_t = mv;
+inline int val(const mv& x) noexcept { return x.get(); }
+#else
+using elem_t = int;
+inline int val(int x) noexcept { return x; }
+#endif
+struct to_elem { elem_t operator()(int x) const noexcept { return elem_t(x); } };   // range_stream yields int
+
 // ---- user callables -----------------------------------------------------------------------------------
 struct fnobj {     // transform function: 'a' add a, 'm' mul a, 'i' throw b if arg == a
   char kind; int a; int b;
@@ -83,11 +105,12 @@ struct fnobj {     // transform function: 'a' add a, 'm' mul a, 'i' throw b if a
       default: if (x == a) throw err{b}; return x;
     }
   }
-  int operator()(int x) const { log("call " + name() + " " + std::to_string(x)); return apply(x); }
+  elem_t operator()(elem_t e) const { int x = val(e); log("call " + name() + " " + std::to_string(x)); return elem_t(apply(x)); }
 };
 struct predobj {   // filter predicate: 'l' x < a, 'n' x != a, 'e' even, 'i' throw b if x == a else true
   char kind; int a; int b;
-  bool operator()(const int& x) const {
+  bool operator()(elem_t e) const {
+    const int x = val(e);
     char buf[96];
     switch (kind) {
       case 'l': std::snprintf(buf, sizeof buf, "pred lt(%d) %d", a, x); break;
@@ -106,7 +129,8 @@ struct predobj {   // filter predicate: 'l' x < a, 'n' x != a, 'e' even, 'i' thr
 };
 struct redobj {    // reducer: 's' acc + x, 'h' (acc*31 + x) mod 1000003, 'i' throw b if x == a else acc + x
   char kind; int a; int b;
-  int operator()(int acc, int x) const {
+  int operator()(int acc, elem_t e) const {
+    const int x = val(e);
     log("feed " + std::to_string(acc) + " " + std::to_string(x));
     switch (kind) {
       case 's': return acc + x;
@@ -117,7 +141,7 @@ struct redobj {    // reducer: 's' acc + x, 'h' (acc*31 + x) mod 1000003, 'i' th
 };
 struct eachobj {   // for_each function
   fnobj f;
-  void operator()(int x) const { log("feed 0 " + std::to_string(x)); (void)f.apply(x); }
+  void operator()(elem_t e) const { int x = val(e); log("feed 0 " + std::to_string(x)); (void)f.apply(x); }
 };
 
 // ---- tracked operation states -----------------------------------------------------------------------
@@ -175,7 +199,7 @@ struct src_next_op : tracked {
     NCTL[self->id].outstanding = false; self->outstanding = false;
     if (self->cb_live) { self->cb_live = false; self->stopcb.destruct(); }
     std::string pre = "ndone " + std::to_string(self->id) + " " + std::to_string(self->k) + " ";
-    if (kind == 'v') { log(pre + "value " + std::to_string(v)); unifex::set_value(std::move(self->r), (int)v); }
+    if (kind == 'v') { log(pre + "value " + std::to_string(v)); unifex::set_value(std::move(self->r), elem_t((int)v)); }
     else if (kind == 'e') { log(pre + "error " + std::to_string(v)); unifex::set_error(std::move(self->r), std::make_exception_ptr(err{v})); }
     else { log(pre + "done"); unifex::set_done(std::move(self->r)); }
   }
@@ -189,6 +213,10 @@ struct src_cleanup_op : tracked {
   ~src_cleanup_op() { log("opdel C " + std::to_string(id)); }
   void start() noexcept {
     alive("starting cleanup");
+    // C13: cleanup must run to the end whatever the consumer's stop state: a cleanup that can see the stop request
+    // (on_stream's schedule(), any stop-reactive cleanup sender) would complete with done without having cleaned up
+    if (unifex::get_stop_token(r).stop_requested())
+      viol("cleanup of source " + std::to_string(id) + " started with the consumer's stop request visible to it");
     auto& c = CCTL[id];
     c.op = this; c.complete_fn = &do_complete; c.outstanding = true;
     log("cstart " + std::to_string(id));
@@ -204,7 +232,7 @@ struct src_cleanup_op : tracked {
 
 struct src_next_sender {
   template <template <typename...> class Variant, template <typename...> class Tuple>
-  using value_types = Variant<Tuple<int>>;
+  using value_types = Variant<Tuple<elem_t>>;
   template <template <typename...> class Variant>
   using error_types = Variant<std::exception_ptr>;
   static constexpr bool sends_done = true;
